@@ -267,3 +267,91 @@ def m_ipv6(I, fr, callee, m, args):
         return Agg('Ipv6Addr', (arr,))
     v = deref_val(I, args[0])
     return I.do_call(fr, 'core::num::<impl u128>::from_be_bytes', [v.f[0]])
+
+
+# ------------------------------------------------------------------ bitflags 2.x (third-party crate model)
+_FLAGS_ALL = {}
+
+
+def flags_all(I):
+    """union of the flags declared in the crate's bitflags! block (read from the source copy)"""
+    key = id(I.prog)
+    if key not in _FLAGS_ALL:
+        import os
+        p = os.path.join(I.prog.src_root, I.prog.crate_dir, 'src', 'dns', 'mod.rs')
+        text = open(p).read()
+        m = re.search(r'bitflags!\s*\{(.*?)\n\}', text, re.S)
+        allv = 0
+        for mm in re.finditer(r'const\s+\w+\s*=\s*(0b[01_]+|0x[0-9a-fA-F_]+|\d+)\s*;', m.group(1)):
+            allv |= int(mm.group(1).replace('_', ''), 0)
+        _FLAGS_ALL[key] = allv
+    return _FLAGS_ALL[key]
+
+
+def _bits(I, v):
+    v = deref_val(I, v)
+    while isinstance(v, Agg):
+        v = v.f[0]
+    return v
+
+
+def _mkflags(like_public, bits):
+    inner = Agg('InternalBitFlags', (bits,))
+    return Agg('PacketFlag', (inner,)) if like_public else inner
+
+
+@model(r'^(_::<impl (?:dns::)?PacketFlag>|InternalBitFlags|(?:dns::)?PacketFlag)::(\w+)$|^<((?:dns::)?PacketFlag|InternalBitFlags) as (BitOr|BitOrAssign|BitAnd|BitAndAssign|BitXor|BitXorAssign|Not|Sub|SubAssign)>::(\w+)$')
+def m_bitflags(I, fr, callee, m, args):
+    pub = 'InternalBitFlags' not in (m.group(1) or m.group(3))
+    op = m.group(2) or m.group(5)
+    ALL = mk('u16', flags_all(I))
+    A = lambda k: _bits(I, args[k])
+    band = lambda x, y: I.binop('BitAnd', x, y)
+    bor = lambda x, y: I.binop('BitOr', x, y)
+    bnot = lambda x: I.binop('BitXor', x, mk('u16', 0xFFFF))
+    if op == 'bits':
+        return A(0)
+    if op == 'from_bits_retain':
+        return _mkflags(pub, args[0])
+    if op == 'from_bits_truncate':
+        return _mkflags(pub, band(args[0], ALL))
+    if op == 'from_bits':
+        if I.ctx.branch(I.binop('Eq', band(args[0], bnot(ALL)), mk('u16', 0))):
+            return Some(_mkflags(pub, args[0]))
+        return NONE
+    if op == 'empty':
+        return _mkflags(pub, mk('u16', 0))
+    if op == 'all':
+        return _mkflags(pub, ALL)
+    if op == 'is_empty':
+        return I.binop('Eq', A(0), mk('u16', 0))
+    if op == 'is_all':
+        return I.binop('Eq', band(A(0), ALL), ALL)
+    if op == 'contains':
+        return I.binop('Eq', band(A(0), A(1)), A(1))
+    if op == 'intersects':
+        return I.binop('Ne', band(A(0), A(1)), mk('u16', 0))
+    if op in ('insert', 'bitor_assign', 'remove', 'sub_assign', 'toggle', 'bitxor_assign', 'bitand_assign'):
+        cur, other = A(0), A(1)
+        if op in ('insert', 'bitor_assign'):
+            nv = bor(cur, other)
+        elif op in ('remove', 'sub_assign'):
+            nv = band(cur, bnot(other))
+        elif op == 'bitand_assign':
+            nv = band(cur, other)
+        else:
+            nv = I.binop('BitXor', cur, other)
+        tgt = I.load_ref(args[0])
+        I.store_ref(args[0], _mkflags(isinstance(tgt, Agg) and tgt.ty == 'PacketFlag', nv))
+        return UNIT
+    if op in ('union', 'bitor'):
+        return _mkflags(pub, bor(A(0), A(1)))
+    if op in ('intersection', 'bitand'):
+        return _mkflags(pub, band(A(0), A(1)))
+    if op in ('difference', 'sub'):
+        return _mkflags(pub, band(A(0), bnot(A(1))))
+    if op in ('symmetric_difference', 'bitxor'):
+        return _mkflags(pub, I.binop('BitXor', A(0), A(1)))
+    if op in ('complement', 'not'):
+        return _mkflags(pub, band(bnot(A(0)), ALL))
+    return NotImplemented
